@@ -243,6 +243,7 @@ func runC13(p *Prog, r *Report) {
 		kinds := map[string][]string{
 			`"PEER-PID"`: {".Pid)"}, `"PEER-UID"`: {".Uid)"}, `"PEER-GID"`: {".Gid)"},
 			`"LOCAL-ADDR"`: {"LocalAddr(", ".Addr(", "recv.addr", ".addr"}, `"REMOTE-ADDR"`: {"RemoteAddr(", "recv.addr", ".addr"},
+			`"TLS-STATE"`: {".TLS", "ConnectionState("},
 		}
 		n := 0
 		for _, fn := range p.Funcs {
@@ -279,6 +280,25 @@ func runC13(p *Prog, r *Report) {
 					}
 				}
 				r.Check(good, R2, f.Name+"/"+strings.Trim(opt, `"`), p.InstrPos(e.At()), opt+" = "+val, "the pipe option "+opt+" is set from "+val+", which is not the datum of that kind: the pipe reports wrong information about its connection")
+				// ... and whenever the connection has that datum: the only conditions on recording
+				// it are about the datum itself (it exists / was obtained), never about how the
+				// endpoint was configured — the scheme of a listener's address says nothing about
+				// a connection accepted through a handler mounted on somebody else's server
+				extra := ""
+				// (conditions under which the pipe object itself is created are not conditions
+				// on the option: they are read off the instruction that defines the pipe)
+				created := map[string]bool{}
+				if def := pipeObjectDef(e.In); def != nil {
+					for _, g := range p.GuardStrings(def) {
+						created[g] = true
+					}
+				}
+				for _, g := range p.GuardStrings(e.In) {
+					if !created[g] && !optionGuardAboutDatum(g, val) {
+						extra = g
+					}
+				}
+				r.Check(extra == "", R2, f.Name+"/"+strings.Trim(opt, `"`)+"/whenever-present", p.InstrPos(e.At()), "recorded whenever the connection has it", "the pipe option "+opt+" is recorded only under the further condition "+extra+", which is not about the datum ("+val+"): a connection that has it can be reported without it")
 			}
 		}
 		r.Count("c13.pipe_option_sets", n)
@@ -438,3 +458,69 @@ func allocatorFreshness(p *Prog, r *Report, R string) {
 
 
 var argRe = regexp.MustCompile(`^arg[0-9]+$`)
+
+// optionGuardAboutDatum: a condition under which a pipe option is recorded is acceptable when
+// it tests the datum the option is set from (its presence), the success of the call that
+// produced it, or the dynamic type of the connection it is read from.
+func optionGuardAboutDatum(g, val string) bool {
+	base := val
+	base = strings.TrimPrefix(base, "*")
+	if i := strings.Index(base, "("); i > 0 {
+		// a call: the callee's receiver / first argument is what the datum is read from
+		inner := base[i+1:]
+		inner = strings.TrimSuffix(inner, ")")
+		if j := strings.LastIndex(base[:i], "."); j > 0 && !strings.Contains(base[:j], " ") && inner == "" {
+			base = base[:j]
+		} else if inner != "" {
+			base = inner
+		}
+	}
+	if base != "" && strings.Contains(g, base) {
+		return true
+	}
+	if strings.HasSuffix(g, "#1 == nil") || strings.HasSuffix(g, " == nil") && strings.Contains(g, "err") {
+		return true
+	}
+	if strings.Contains(g, "typeassert") || strings.Contains(g, ".(") {
+		return true
+	}
+	return false
+}
+
+// pipeObjectDef: the instruction that creates the object an option is recorded on: for
+// `w.options[k] = v` the allocation of w, for `p.SetOption(k, v)` the definition of p.
+func pipeObjectDef(in ssa.Instruction) ssa.Instruction {
+	var v ssa.Value
+	switch x := in.(type) {
+	case *ssa.MapUpdate:
+		v = x.Map
+	case *ssa.Call:
+		if x.Call.IsInvoke() {
+			v = x.Call.Value
+		} else if len(x.Call.Args) > 0 {
+			v = x.Call.Args[0]
+		}
+	}
+	for i := 0; i < 8 && v != nil; i++ {
+		switch y := v.(type) {
+		case *ssa.UnOp:
+			v = y.X
+		case *ssa.FieldAddr:
+			v = y.X
+		case *ssa.Extract:
+			v = y.Tuple
+		case *ssa.ChangeInterface:
+			v = y.X
+		case *ssa.MakeInterface:
+			v = y.X
+		case *ssa.TypeAssert:
+			v = y.X
+		default:
+			if d, ok := v.(ssa.Instruction); ok {
+				return d
+			}
+			return nil
+		}
+	}
+	return nil
+}
